@@ -79,6 +79,23 @@ class Engine:
     def new_ref(self, st):
         return st.heap.new_ref()
 
+    def ref_map_axiom(self, st, key):
+        """global well-formedness of a reference-valued heap component: every stored reference is allocated
+        (below the allocation mark at the time the component's base value was introduced)"""
+        base, log = st.heap._entry(key)
+        gk = 'refax:%s:%d' % (key, base.get_id())
+        if gk in st.ghost:
+            return
+        st.ghost[gk] = True
+        bound = getattr(st.heap, 'base_alloc', {}).get(key, st.heap.alloc0)
+        r, i = z3.Int(fresh_name('r')), z3.Int(fresh_name('i'))
+        if key.startswith('f:'):
+            e = z3.Select(base, r)
+            st.pc.append(z3.ForAll([r], z3.And(0 <= e, e < bound), patterns=[e]))
+        elif key == 'el:ref':
+            e = z3.Select(z3.Select(base, r), i)
+            st.pc.append(z3.ForAll([r, i], z3.And(0 <= e, e < bound), patterns=[e]))
+
     def assume_valid_ref(self, st, v, optional=False):
         if is_ref_kind(v.k):
             lo = z3.IntVal(0) if optional else z3.IntVal(1)
@@ -95,6 +112,8 @@ class Engine:
         e = z3.Select(self.list_arr(st, v), i)
         if isinstance(v.k[1], tuple) and v.k[1][0] == 'tuple':
             return tuple_val(v.k[1], e)
+        if is_ref_kind(v.k[1]):
+            self.ref_map_axiom(st, 'el:ref')
         return Val(v.k[1], e)
 
     def mk_list(self, st, ek, length, content):
@@ -179,7 +198,7 @@ class Engine:
                 elif a[0] == 'each' and key == a[3]:
                     q = z3.Int(fresh_name('q'))
                     okl.append(z3.Exists([q], z3.And(0 <= q, q < a[1], z3.Select(a[2], q) == ref)))
-            self.oblige(st, "loop%d:modifies:%s@L%d" % (ordn, what, getattr(node, 'lineno', 0)), 'frame',
+            self.oblige(st, "loop%s:modifies:%s@L%d" % (ordn, what, getattr(node, 'lineno', 0)), 'frame',
                         z3.Or(*okl), node)
 
     # ------------------------------------------------------------ name resolution
@@ -263,7 +282,7 @@ class Engine:
             if isinstance(g, ast.Constant):
                 return self.ev_Constant(g, st)
             return Val(('opaque', 'global:' + n), z3.IntVal(0), n)
-        if n in mod.functions or n in mod.imports or n in mod.classes:
+        if n in mod.functions or n in mod.imports or n in mod.classes or n in ('list', 'dict', 'set', 'int', 'float', 'len', 'range', 'sorted'):
             return Val('func', None, ('named', node))
         raise ContractError("unknown name %r (line %s)" % (n, getattr(node, 'lineno', '?')))
 
@@ -553,7 +572,9 @@ class Engine:
                 key, fk = self.field_key(cls, attr)
                 v = Val(fk, st.heap.rd(key, base.t))
                 if is_ref_kind(fk):
-                    st.assume(z3.And(v.t >= 0, v.t < st.heap.alloc))
+                    self.ref_map_axiom(st, key)
+                    if st.ghost.get('qdepth', 0) == 0:
+                        st.assume(z3.And(v.t >= 0, v.t < st.heap.bound(key)))
                 return v
             # property getter?
             if sch is not None:
